@@ -176,6 +176,43 @@ def lvTrace (lv id j : Nat) (s : St) : St :=
   | 6 => s
   | _ => s.print s!"i {id} {j}"
 
+/-! #### unsigned arithmetic at the 32-bit boundary (act kind 14) -/
+
+/-- bit width of the operand type: 0 uint32 · 1 uint · 2 uintptr (32 bits in the target; values stay below 2^32) · 3 uint8 ·
+    4 uint16 -/
+def uWidth (ty : Nat) : Nat := match ty with | 3 => 8 | 4 => 16 | _ => 32
+
+/-- boundary constants for width `w`: top bit, all ones, top bit clear, upper half, upper nibble, 1, 0x55…, 0xAA… -/
+def uConst (w ci : Nat) : Nat :=
+  let m := 2 ^ w
+  match ci % 8 with
+  | 0 => m / 2
+  | 1 => m - 1
+  | 2 => m / 2 - 1
+  | 3 => m - 2 ^ (w / 2)
+  | 4 => 15 * 2 ^ (w - 4)
+  | 5 => 1
+  | 6 => (m - 1) / 3
+  | _ => (m - 1) / 3 * 2
+
+def uShift (w ci : Nat) : Nat := match ci % 4 with | 0 => 1 | 1 => w - 1 | 2 => w / 2 | _ => 3
+
+/-- Go semantics of `a op b` on an unsigned type of width `w` (wrap-around; `&^`; shifts by `b`) -/
+def uOp (w op a b : Nat) : Nat :=
+  let m := 2 ^ w
+  match op with
+  | 0 => a &&& b
+  | 1 => a ||| b
+  | 2 => a ^^^ b
+  | 3 => a &&& (m - 1 - b)
+  | 4 => (a + b) % m
+  | 5 => (a + m - b) % m
+  | 6 => (a * b) % m
+  | 7 => a / b
+  | 8 => a % b
+  | 9 => (a * 2 ^ b) % m
+  | _ => a / 2 ^ b
+
 /-- `runfs(id)`: call every stored closure in order; closures that captured the same variable see each other's writes -/
 def runFs (id : Nat) (s : St) : St :=
   s.fs.foldl (fun (s : St) (f : Nat × Int) =>
@@ -269,6 +306,23 @@ def doAct (P : Prog) (id : Nat) (s : St) : St :=
     | some k => if s.ps.length < 12 then { s with ps := s.ps ++ [s.hdr.getD k 0] } else s
     | none => { s with err := true }
   | [13, _, _, _, _, _] => runPs id s
+  | [14, dst, x, op, cs, ty] =>
+    -- { u := T(uint32(x)*2654435761 + 0x9E3779B9); r := u op C (or C op u); useT(id, r, C); dst = int(r % 251) }
+    let w := uWidth ty
+    let m := 2 ^ w
+    let u := (((s.get x).emod 4294967296).toNat * 2654435761 + 2654435769) % 4294967296 % m
+    let ci := cs / 2
+    let side := cs % 2
+    let c := uConst w ci
+    let r :=
+      if op == 9 || op == 10 then
+        (if side == 0 then uOp w op u (uShift w ci) else uOp w op c (u % 8))
+      else if op == 7 || op == 8 then
+        (if side == 0 then uOp w op u (c ||| 1) else uOp w op c (u ||| 1))
+      else (if side == 0 then uOp w op u c else uOp w op c u)
+    let sw := if r == c then "k" else if r == 0 then "z" else "d"
+    let s := s.print s!"u {id} {r} {showB (r == c)} {showB (decide (r > m / 2 - 1))} {r / 3} {r / (m / 2)} {showB (decide (r ≥ m / 2))} {sw}"
+    s.set dst (r % 251 : Nat)
   | [7, dst, x, k, _, _] =>
     let v := ((s.get x + 1) * 2 + k).tmod 1009
     (s.set dst v).print s!"a {id} {v}"
